@@ -28,7 +28,9 @@ ASSUMPTIONS = [
     "'automatic levels without fitting' is not claimed by the statement and not asserted",
     "numeric thresholds other than the midpoint (0.3, 0.7 of the range) are asserted with supplied levels only; with "
     "fitted levels they are measured but not judged (an arbitrary number is not a threshold rule)",
-    "periodic cylindrical grids: droplets stay R+4w+3h away from the z boundary (py-pde metric, see C03)",
+    "periodic cylindrical grids: images rendered by the library keep droplets R+4w+3h away from the z boundary (its "
+    "renderer does not wrap there, py-pde metric, see C03); droplets across or exactly on that boundary are rendered "
+    "by the harness itself with the periodic distance (single droplet, 45 % of the periodic cylindrical cases)",
 ]
 REQUIRED_MONITORS = {"post:recovered": 40, "post:count": 40}
 MIN_NONTRIVIAL = 20
@@ -231,7 +233,17 @@ def _gen_once(rng, kind, tier):
             if not ok:
                 return None
         dl = [{"pos": [0.0, 0.0, z], "radius": R, "width": w} for z, R, w in placed]
-        return {"grid": spec, "droplets": dl, "levels": [a, b], "threshold": thr, "refine_args": refine_args}
+        case = {"grid": spec, "droplets": dl, "levels": [a, b], "threshold": thr, "refine_args": refine_args}
+        if spec["periodic_z"] and rng.random() < 0.45:
+            # one droplet across (or centred exactly on) the periodic z boundary.  The image is rendered by the
+            # harness with the periodic distance, as a periodic simulation would produce it (the library's own
+            # renderer does not wrap droplets on cylindrical grids, see C03)
+            R, w = drops[0]
+            off = 0.0 if rng.random() < 0.3 else float(rng.uniform(-1.0, 1.0) * R)
+            z = z0 + float(rng.integers(0, 2)) * hz * nz + off
+            case["droplets"] = [{"pos": [0.0, 0.0, float(z)], "radius": R, "width": w}]
+            case["render"] = "periodic-oracle"
+        return case
     raise ValueError(kind)
 
 
@@ -260,6 +272,15 @@ def run(case, rec):
     em = droplets.Emulsion([droplets.DiffuseDroplet(np.asarray(d["pos"], float), d["radius"], d["width"])
                             for d in case["droplets"]])
     prof = em.get_phasefield(grid)
+    if case.get("render") == "periodic-oracle":
+        L = spec["bounds_z"][1] - spec["bounds_z"][0]
+        rr, zz = grid.cell_coords[..., 0], grid.cell_coords[..., 1]
+        data = np.zeros(grid.shape)
+        for d in case["droplets"]:
+            dz = (zz - d["pos"][2] + L / 2) % L - L / 2
+            data += 0.5 + 0.5 * np.tanh((d["radius"] - np.sqrt(rr ** 2 + dz ** 2)) / d["width"])
+        prof = ScalarField(grid, data)
+        rec.count("cylindrical_droplets_across_the_periodic_boundary")
     field = ScalarField(grid, a + b * prof.data)
     thr = case["threshold"]
     threshold = (a + b * float(thr)) if thr[0].isdigit() else thr
